@@ -206,7 +206,7 @@ theorem rowMajor_single (v : List ℚ) :
   unfold rowMajor
   simp [List.finRange_succ, Vector.get, Function.comp_def]
 
-theorem rowMajor_single' (v : List ℚ) : rowMajor (v.map fun a => (#v[a] : Vector ℚ 1)) = v := by
+theorem rowMajor_single_lit (v : List ℚ) : rowMajor (v.map fun a => (#v[a] : Vector ℚ 1)) = v := by
   simpa using rowMajor_single v
 
 theorem rowMajor_replicate_one (k : ℕ) (c : ℚ) :
@@ -254,7 +254,7 @@ theorem convertU_generated (m k : ℕ) (x : TimeResp.Arr) :
     simp only [Bool.false_eq_true, if_false, if_neg hs, bind, Except.bind, e1]
     by_cases h : m = 1 ∧ v.length = k
     · obtain ⟨rfl, rfl⟩ := h
-      simp [dataOf, okOf, rowMajor_single']
+      simp [dataOf, okOf, rowMajor_single_lit]
     · simp [h, dataOf, okOf]
   | d2 r cols =>
     have hiff := exists_matches_map (legalUF m k) [r, cols.length]
